@@ -116,7 +116,7 @@ func (d *Driver) runNative(sc tf.Script) {
 		return out
 	}
 	// (a) subsets of 1..20, by size: exhaustive up to maxFull, then (thorough) every remaining size while time permits
-	maxFull := 3
+	maxFull := 5
 	if level == "thorough" {
 		maxFull = 20
 	}
@@ -188,8 +188,8 @@ func (d *Driver) runNative(sc tf.Script) {
 		emit(name, 0, done, done, ok, firstBad)
 	}
 	if level != "thorough" {
-		sample("sampled(1..20),size4..20", 1, 20, 4, 20, 400, false)
-		sample("sampled(1..40),with id>20,size1..20", 1, 40, 1, 20, 400, true)
+		sample("sampled(1..20),size6..20", 1, 20, 6, 20, 3000, false)
+		sample("sampled(1..40),with id>20,size1..20", 1, 40, 1, 20, 2000, true)
 	} else {
 		sample("sampled(1..40),with id>20,size1..20", 1, 40, 1, 20, 200000, true)
 		sample("sampled(21..40),size1..20", 21, 40, 1, 20, 50000, true)
